@@ -14,7 +14,9 @@ package main
 //     to hand it the caller's field, maps and backing arrays of an earlier call
 //     would be written to);
 //   - a VARIANT column (`variant` tag) read into an interface (maps, lists,
-//     strings and byte slices built from the metadata / value bytes of the page);
+//     strings and byte slices built from the metadata / value bytes of the page),
+//     and one read into a raw variant struct {Metadata, Value []byte} (the
+//     stored bytes as they are);
 //   - lists of byte slices, nested lists, lists of pointers, a repeated byte
 //     slice, maps whose values are byte slices / lists / groups, an optional
 //     group with slices, a list of groups.
@@ -33,6 +35,7 @@ import (
 	"math/rand"
 
 	"github.com/parquet-go/parquet-go"
+	"github.com/parquet-go/parquet-go/variant"
 
 	"verif/harness/core"
 )
@@ -70,6 +73,14 @@ type c16RefRec struct {
 	PI *c16RefItem           `parquet:"pi,optional"`
 	LI []c16RefItem          `parquet:"li,list"`
 	VA any                   `parquet:"va,variant"`
+	VR c16RefRaw             `parquet:"vr,variant"`
+}
+
+// c16RefRaw: a raw variant struct, the destination that receives the encoded
+// metadata and value of a VARIANT group as they are stored.
+type c16RefRaw struct {
+	Metadata []byte
+	Value    []byte
 }
 
 var c16RefSchema = parquet.SchemaOf(c16RefRec{})
@@ -216,6 +227,20 @@ func c16RefMake(salt, i int) c16RefRec {
 		r.VA = append(l, []byte(txt(9)))
 	case 3:
 		r.VA = txt(7)
+	}
+	var rv any = txt(10)
+	// (objects of one key: the dictionary of a variant object of several keys is
+	// built in the order Go iterates the map, the encoding would differ from call to call)
+	switch i % 3 {
+	case 0:
+		rv = map[string]any{c16RefKey(i, 0): []any{txt(10), int64(i), i%2 == 0}}
+	case 2:
+		rv = []any{txt(10), map[string]any{c16RefKey(i, 1): txt(11)}, int64(i)}
+	}
+	if m, v, err := variant.Marshal(rv); err == nil {
+		r.VR = c16RefRaw{Metadata: m, Value: v}
+	} else {
+		panic("variant.Marshal: " + err.Error())
 	}
 	return r
 }
